@@ -69,15 +69,19 @@ fn has_fid(e: &Expr) -> bool {
 }
 
 pub fn check(tree: &Expr, acc: &mut Acc) {
+    check_with(tree, None, acc)
+}
+
+pub fn check_with(tree: &Expr, threads: Option<u32>, acc: &mut Acc) {
     acc.states += 1;
     acc.transitions += 1;
     acc.validated += 1;
-    let wit = || json!({"kind": "tree", "tree": tree});
+    let wit = || json!({"kind": "tree", "tree": tree, "threads": threads});
     let real = match conv::expr_to_real(tree) {
         Some(r) => r,
         None => return,
     };
-    let (text, io) = match compile_render(&real, &subject::options(false, None), "/dev") {
+    let (text, io) = match compile_render(&real, &subject::options(false, threads), "/dev") {
         C::Ok(v) => v,
         C::Err(e) => {
             acc.violate(Violation::new("C10:compile-refused", format!("{}: {e}", tree.show()), wit()));
@@ -235,6 +239,12 @@ pub fn run(ctx: &Ctx) -> i32 {
                     check(&p, acc);
                 }
             }
+            if n <= 2 {
+                // the mode rule does not depend on the requested thread count
+                for th in [1u32, 2, 16] {
+                    check_with(&chain(&items), Some(th), acc);
+                }
+            }
         }));
     }
     // many destinations
@@ -254,6 +264,37 @@ pub fn run(ctx: &Ctx) -> i32 {
         check(&chain(&items), acc);
     });
     acc = acc.merge(fam);
+    // file names that a find implementation might single out
+    let mut special = Acc::new();
+    for name in ["/dev/stdout", "/dev/stderr", "/dev/null", "/dev/fd/1", "-", "stdout", "", " ", "a/../b", "f\u{1e}g", "\u{2}"] {
+        if name.is_empty() {
+            continue;
+        }
+        for a in [Action::FPrint(name.into()), Action::FPrint0(name.into()), Action::FPrintf(name.into(), vec![Fmt::Field(Field::Name), nl()]), Action::Fls(name.into())] {
+            if matches!(a, Action::Fls(_)) {
+                continue; // not compilable: C12's subject
+            }
+            check(&Expr::Action(a.clone()), &mut special);
+            check(&Expr::and(Expr::Action(Action::Print), Expr::Action(a.clone())), &mut special);
+            check(&Expr::or(Expr::and(Expr::Test(Test::Name("x".into())), Expr::Action(a)), Expr::Action(Action::Print)), &mut special);
+        }
+    }
+    // names of files that exist (plain, through "./", through a symbolic link): the table must
+    // carry the name as written
+    {
+        let dir = speclib::report::root().join("target").join("c10-files").join(format!("{}", std::process::id()));
+        let _ = std::fs::create_dir_all(dir.join("sub"));
+        let _ = std::fs::write(dir.join("f"), b"x");
+        #[cfg(unix)]
+        let _ = std::os::unix::fs::symlink(dir.join("f"), dir.join("link"));
+        let d = dir.to_string_lossy().to_string();
+        for names in [[format!("{d}/f"), format!("{d}/./f")], [format!("{d}/link"), format!("{d}/f")], [format!("{d}/sub/../f"), format!("{d}/f")]] {
+            check(&Expr::and(Expr::Action(Action::FPrint(names[0].clone())), Expr::Action(Action::FPrint(names[1].clone()))), &mut special);
+            check(&Expr::and(Expr::Action(Action::FPrint0(names[1].clone())), Expr::Action(Action::FPrintf(names[0].clone(), vec![Fmt::Field(Field::Name)]))), &mut special);
+        }
+        let _ = std::fs::remove_dir_all(&dir);
+    }
+    acc = acc.merge(special);
     acc.sample(json!({"chain": chain(&[acts[1].clone(), acts[5].clone(), acts[0].clone()]).show()}));
     finish(
         ctx,
@@ -262,7 +303,7 @@ pub fn run(ctx: &Ctx) -> i32 {
             level: "model_checking",
             exhaustive: true,
             rule: "state = ordered sequence of actions (AND chain; for <= 3 actions also 7 placements under !/OR/',' with forcing constants); compiled by the real compile(); mode = presence of io_map() checked against the rule; the policy is executed once in the runtime model, the shared port's character stream decoded into frames through io_map() and compared frame by frame with the executed actions; table entries must be exactly the (destination, terminator) pairs of the tree's actions, one tag each; distinct = distinct (decoded output, table) pairs".into(),
-            bound: format!("every sequence of 1..{maxn} items over 13 output actions + -quit + -true; destination families of size {}", if ctx.tier == Tier::Quick { "1..3, 27..31, 64, 127..129, 255..257, 300" } else { "1..300" }),
+            bound: format!("every sequence of 1..{maxn} items over 13 output actions + -quit + -true; 1- and 2-item sequences also under -threads 1, 2, 16; file names /dev/stdout, /dev/stderr, /dev/null, /dev/fd/1, -, and names containing the separator or a tag character; destination families of size {}", if ctx.tier == Tier::Quick { "1..3, 27..31, 64, 127..129, 255..257, 300" } else { "1..300" }),
             assumptions: vec![
                 "runtime model of DESIGN.md §3: print-file-fid writes directly to the current output port".into(),
                 "a format list that is empty is outside the alphabet (the rule 'last element is not a newline escape' does not decide it)".into(),
@@ -275,7 +316,7 @@ pub fn run(ctx: &Ctx) -> i32 {
 pub fn replay(w: &Value) -> Vec<Violation> {
     let mut acc = Acc::new();
     if let Ok(t) = serde_json::from_value::<Expr>(w["tree"].clone()) {
-        check(&t, &mut acc);
+        check_with(&t, w["threads"].as_u64().map(|t| t as u32), &mut acc);
     }
     acc.violations.into_values().map(|(v, _)| v).collect()
 }
